@@ -46,6 +46,10 @@ PROP_MODULES = ["WV.Props.C07", "WV.Props.C07_Late"]
 # (connection_ready_winner_test, connection_truth_hooks, winner_test_means_is_set); its file comes with that change
 if os.path.exists(os.path.join(os.path.dirname(os.path.abspath(__file__)), "..", "..", "lean", "WV", "Props", "C07_Pin.lean")):
     PROP_MODULES.append("WV.Props.C07_Pin")
+# translation validation of the Connection method bodies, handshake part (tools/extract.py::extract_pyir_tr ->
+# WV/Gen/PyIRTr.lean): part of the check as soon as the module is installed (agents/deepTr_integration.md)
+if os.path.exists(os.path.join(os.path.dirname(os.path.abspath(__file__)), "..", "..", "lean", "WV", "Props", "PyIRTr_C07.lean")):
+    PROP_MODULES.append("WV.Props.PyIRTr_C07")
 TRUSTED = ["HKDF/SHA-256: the sender, receiver and relay handshake strings of a key are parameters of the model (distinct, "
            "neither a prefix of the other: hypotheses of the theorems; the harness uses the real strings)",
            "Twisted Deferred semantics (cancel() fires synchronously; callbacks run in order) and task.Clock ordering",
